@@ -38,9 +38,47 @@ def harness_args(ctx, seed, tier):
     return args
 
 
+# which share classes of the harness make a broken T4 obligation observable on the real code
+FOCUS = {
+    "lock_discipline_on_tree": ["swap-rust", "swap-script"],
+    "counts_atomic_on_tree": ["refcount-storm"],
+    "closures_own_on_tree": ["into-func"],
+}
+
+
+def share_focus(ctx):
+    """The share classes to hunt in, from the obligations that actually fail to
+    check (not those merely unchecked because the module did not build);
+    None = nothing about sharing is broken."""
+    focus = []
+    for (name, ok, detail) in ctx.obligations:
+        if ok or not detail.startswith("fails to check"):
+            continue
+        for thm, classes in FOCUS.items():
+            if name.endswith("." + thm):
+                focus += [c for c in classes if c not in focus]
+    if "extract:c12sharing" in ctx.broken and not focus:
+        focus = [c for cs in FOCUS.values() for c in cs]
+    return focus or None
+
+
 def search(ctx):
-    if ctx.build_harness("c12"):
-        ctx.harness("c12", harness_args(ctx, ctx.seed + 7919, "thorough"), timeout=3000, name="search:c12")
+    if not ctx.build_harness("c12"):
+        return
+    focus = share_focus(ctx)
+    if focus and any(v.get("key", "").endswith(":" + c) or c in v.get("key", "") for v in ctx.impl_violations for c in focus):
+        # the correspondence run already produced a concrete history in the class the
+        # broken obligation points at
+        return
+    if focus:
+        # a lock / count / capture obligation is broken: hunt for a concrete history in
+        # exactly those stress classes, escalating rounds, until found or the budget is used
+        before = len(ctx.impl_violations)
+        ctx.harness("c12", ["share", ctx.seed + 7919, ctx.tier, "--focus", ",".join(focus), "--budget-s", 150],
+                    timeout=600, name="search:c12-share")
+        if len(ctx.impl_violations) > before:
+            return
+    ctx.harness("c12", harness_args(ctx, ctx.seed + 7919, "thorough"), timeout=3000, name="search:c12")
 
 
 TSAN_TARGET = os.path.join(common.TARGET, "tsan")
@@ -79,8 +117,8 @@ def tsan(ctx):
 
 
 def run(ctx):
-    ctx.extract(["c12bounds"])
-    ctx.prove(PROPS, extra_modules=["RotoV.Lemmas.Conc", "RotoV.Model.Conc"])
+    ctx.extract(["c12bounds", "c12sharing"])
+    ctx.prove(PROPS, extra_modules=["RotoV.Lemmas.Conc", "RotoV.Model.Conc", "RotoV.Lemmas.ConcShare", "RotoV.Model.ConcShare"])
     if ctx.build_harness("c12"):
         ctx.harness("c12", harness_args(ctx, ctx.seed, ctx.tier), timeout=3000)
         if ctx.tier == "thorough":
@@ -90,7 +128,10 @@ def run(ctx):
         "a callee (Roto or runtime function) writes at most through the pointers it is handed; the context is handed on read-only "
         "(for Roto callees this is frame_local_writes applied to the callee; for Rust runtime functions it is their signature: out-pointer first, by-value arguments in slots)",
         "Cranelift maps LIR stack slots to the frame of the running thread; the host passes by-reference arguments from its own frame (codegen/mod.rs, value/mod.rs) — modelled, not verified",
-        "rustc's auto-trait rules: a type passes a bound list iff it has the listed auto traits (Bounds.admits); checked against rustc on three probe programs per run",
+        "rustc's auto-trait rules: a type passes a bound list iff it has the listed auto traits (Bounds.admits); checked against rustc on the probe programs of each run",
+        "translator target c12sharing: shapes are decided by type NAME (Arc, Rc, Mutex, RwLock, Cell …; renames/aliases of these names are an extraction failure), structs of the crate are inlined, "
+        "enums and foreign types are opaque (.ext); a RawList method 'writes' iff its body contains a write primitive, a call through drop_fn/clone_fn, a field assignment or a call of a writing method on self",
+        "std's Mutex admits one holder, RwLock one writer or many readers, Arc counts are atomic read-modify-writes, Rc counts are plain loads and stores (the machines of Model/ConcShare) — modelled, not verified",
         "modelled, not verified: data races inside machine code, the global TypeRegistry mutex and the symbol_table interner are exercised by the stress run only "
         "(thorough tier repeats the stress cases in a ThreadSanitizer build, which instruments the Rust side but not the JIT-generated code)",
     ]
@@ -98,7 +139,11 @@ def run(ctx):
         level="proof",
         rule="stress cases: a class is (script family, feature flags, number of calling threads) with every concurrent result compared to the "
              "single-threaded result of the same call; evaluations = compared concurrent calls + rustc probe programs; "
-             "every script's real LIR goes through the verified checker (histogram lir-checked: items / instructions / write sites)",
+             "every script's real LIR goes through the verified checker (histogram lir-checked: items / instructions / write sites); "
+             "share classes (run first, each in its own worker): swap-rust / swap-script (N threads x swaps on overlapping indices of one shared list, concurrent snapshots: "
+             "every snapshot and the final list must be a permutation of whole elements, element drop count balances), refcount-storm (clone/drop/compile storms on a registered closure "
+             "and a registered constant holding a drop-counting token: no drop while an owner lives, exactly one at the end), into-func (closure of into_func called after every other "
+             "owner was dropped on another thread, several arities, with and without context)",
         search=search,
     )
 
